@@ -304,14 +304,14 @@ func (e *c10env) successKnown(b *ssa.BasicBlock, call *ssa.Call, k int) bool {
 		return false
 	}
 	if c10isBool(res.At(k).Type()) {
-		for _, f := range factsAt(b) {
+		for _, f := range c10factsAt(b) {
 			if f.Truth && is(f.Cond) {
 				return true
 			}
 		}
 		return false
 	}
-	return knownNil(b, is)
+	return c10knownNil(b, is)
 }
 
 // structResult: v is a field of a struct that a call returned by value - read directly (Field) or from the local the
@@ -383,7 +383,7 @@ func (e *c10env) forward(r c10res, depth int) c10res {
 						continue
 					}
 					jj := j
-					if knownNil(ret.Block(), func(v ssa.Value) bool {
+					if c10knownNil(ret.Block(), func(v ssa.Value) bool {
 						x, ok := c10resOf(v)
 						return ok && x.call == o.call && x.idx == jj
 					}) {
@@ -454,6 +454,89 @@ func (e *c10env) happensBefore(a, b ssa.Instruction) bool {
 	return false
 }
 
+// c10isForwarder: a plain-data function that does not look at a single byte itself: one block that cuts its input with
+// constant bounds (h[5:]), hands it to ONE plain-data function of the package and returns that function's results as
+// they are - `func (h clientHello) serverName() (string, bool) { return readServerName(h[recordHeaderLen:]) }`. Such a
+// function is plumbing between the handler and the parser, like the method of the proxy that does the same: it is a
+// handler function, what it cuts is judged by M3 from what every call site guarantees about the captured bytes (the
+// bound of the size function), and the function it hands on to is the parser root, about whose input nothing is assumed.
+func c10isForwarder(g *ssa.Function) bool {
+	if g == nil || len(g.Blocks) != 1 || g.Parent() != nil || !c10pureSig(g) {
+		return false
+	}
+	var inner *ssa.Call
+	for _, in := range g.Blocks[0].Instrs {
+		switch x := in.(type) {
+		case *ssa.DebugRef:
+		case *ssa.Slice:
+			if !c10byteLike(x.X.Type()) {
+				return false
+			}
+			for _, bnd := range []ssa.Value{x.Low, x.High, x.Max} {
+				if bnd != nil {
+					if _, isK := constInt(bnd); !isK {
+						return false
+					}
+				}
+			}
+		case *ssa.ChangeType:
+			if !c10byteLike(x.X.Type()) {
+				return false
+			}
+		case *ssa.Alloc:
+			// (the local a struct receiver passed by value is spilled into)
+		case *ssa.Store:
+			if _, isParam := x.Val.(*ssa.Parameter); !isParam {
+				return false
+			}
+			if _, isLocal := x.Addr.(*ssa.Alloc); !isLocal {
+				return false
+			}
+		case *ssa.FieldAddr:
+			// a small wrapper type around the captured bytes (`type capturedHello struct{ raw []byte }`): taking the
+			// bytes out of the wrapper is not looking at them
+			switch x.X.(type) {
+			case *ssa.Alloc, *ssa.Parameter:
+			default:
+				return false
+			}
+		case *ssa.Field:
+			if _, isParam := x.X.(*ssa.Parameter); !isParam {
+				return false
+			}
+		case *ssa.UnOp:
+			if _, isField := x.X.(*ssa.FieldAddr); !isField || x.Op != token.MUL || !c10byteLike(x.Type()) {
+				return false
+			}
+			if _, isArr := x.Type().Underlying().(*types.Array); isArr {
+				return false
+			}
+		case *ssa.Call:
+			callee := x.Call.StaticCallee()
+			if inner != nil || callee == nil || callee == g || len(callee.Blocks) == 0 || rootPkg(callee) != rootPkg(g) || !c10pureSig(callee) {
+				return false
+			}
+			inner = x
+		case *ssa.Extract:
+			if inner == nil || x.Tuple != ssa.Value(inner) {
+				return false
+			}
+		case *ssa.Return:
+			if inner == nil || len(x.Results) != inner.Call.Signature().Results().Len() {
+				return false
+			}
+			for k, r := range x.Results {
+				if !c10sameRes(r, inner, k) {
+					return false
+				}
+			}
+		default:
+			return false
+		}
+	}
+	return inner != nil
+}
+
 func c10resolve(c *Ctx, h *ssa.Function) *c10env {
 	e := &c10env{c: c, h: h, inH: map[*ssa.Function]bool{}, inP: map[*ssa.Function]bool{}, isRoot: map[*ssa.Function]bool{}}
 	e.all = c.region(h)
@@ -513,11 +596,14 @@ func c10resolve(c *Ctx, h *ssa.Function) *c10env {
 		if g == nil || len(g.Blocks) == 0 || rootPkg(g) != home || g == f || !c10pureSig(g) {
 			return
 		}
+		if c10isForwarder(g) {
+			return // plumbing between the handler and the parser (see c10isForwarder): the function it hands on to is the root
+		}
 		outer := f
 		for outer.Parent() != nil {
 			outer = outer.Parent()
 		}
-		if c10pureSig(outer) {
+		if c10pureSig(outer) && !c10isForwarder(outer) {
 			return // a parser function calling another one: part of a region, not a root
 		}
 		hostile := false
@@ -974,6 +1060,10 @@ func c10parts(v ssa.Value, b *c10bind, depth int) ([]c10shifted, bool) {
 		if x.Op != token.MUL {
 			return nil, false
 		}
+		if fa, isField := x.X.(*ssa.FieldAddr); isField {
+			// an integer kept in a field of a header struct: what was stored there (c10_fields.go)
+			return c10fieldLoadParts(x, fa, b, depth)
+		}
 		ia, ok := x.X.(*ssa.IndexAddr)
 		if !ok {
 			return nil, false
@@ -987,6 +1077,11 @@ func c10parts(v ssa.Value, b *c10bind, depth int) ([]c10shifted, bool) {
 			return nil, false
 		}
 		return []c10shifted{{c10ref{r, o + k, 1}, 0}}, true
+	case *ssa.Field:
+		if ref, ok := c10fieldBytes(x.X, x.Field, b, depth+1); ok {
+			return []c10shifted{{ref, 0}}, true
+		}
+		return nil, false
 	case *ssa.Index:
 		// element of an array value
 		k, ok := constInt(x.Index)
@@ -1034,8 +1129,11 @@ func c10callParts(call *ssa.Call, idx int, b *c10bind, depth int) ([]c10shifted,
 	inner := &c10bind{call, b}
 	eachInstr(g, func(i ssa.Instruction) {
 		r, ok := i.(*ssa.Return)
-		if !ok || idx >= len(r.Results) {
+		if !ok || i.Parent() != g || idx >= len(r.Results) {
 			return
+		}
+		if len(r.Results) > 1 && c10failureReturn(r) {
+			return // what a failure return hands out next to its error (0, "") is not what the caller computes with
 		}
 		ref, ok := c10beBytes(r.Results[idx], inner, depth+1)
 		if !ok || (n > 0 && ref != out) {
